@@ -142,6 +142,29 @@ func TestC11_FullPath(t *testing.T) {
 	ev := evid.For("C11", "FullPath")
 	rapid.Check(t, func(rt *rapid.T) {
 		d := c11Decl(rt)
+		renamed := false
+		if rapid.IntRange(0, 2).Draw(rt, "renamecolumns") == 0 {
+			// a field may be stored under a column of any name: what the column holds is decided by the field
+			for i := range d.Block {
+				b := &d.Block[i]
+				if c14Identity[b.Name] || b.Column != b.Name || !rapid.Bool().Draw(rt, "rename:"+b.Name) {
+					continue
+				}
+				nc := "c_" + b.Name
+				for j := range d.Columns {
+					if d.Columns[j].Name == b.Column {
+						d.Columns[j].Name = nc
+					}
+				}
+				for j := range d.Notify {
+					if d.Notify[j] == b.Column {
+						d.Notify[j] = nc
+					}
+				}
+				b.Column = nc
+				renamed = true
+			}
+		}
 		pool := gen.NewPool()
 		filtered := false
 		if rapid.IntRange(0, 2).Draw(rt, "withfilters") == 0 {
@@ -195,7 +218,7 @@ func TestC11_FullPath(t *testing.T) {
 			rt.Fatalf("VERIF-VIOLATION property=C11 %s\n %s", v, desc())
 		}
 		ub, bf6 := c11Stats(d)
-		ev.Case(ub || neg || bf6, desc(), fmt.Sprintf("unselBeforeSel=%v", ub), fmt.Sprintf("negative=%v", neg), fmt.Sprintf("blockFields>=6=%v", bf6), fmt.Sprintf("inputFilters=%v", filtered), "kind="+d.Kind())
+		ev.Case(ub || neg || bf6, desc(), fmt.Sprintf("unselBeforeSel=%v", ub), fmt.Sprintf("negative=%v", neg), fmt.Sprintf("blockFields>=6=%v", bf6), fmt.Sprintf("inputFilters=%v", filtered), fmt.Sprintf("renamedColumns=%v", renamed), "kind="+d.Kind())
 		if (ub || neg) && ev.WantSample(3) {
 			ev.Sample(3, desc())
 		}
